@@ -206,14 +206,15 @@ Proof.
 Qed.
 
 Lemma print_dirs_ok G L l :
-  Forall (fun d => rt_ok ps G L (view d)) l -> keeps (good [] G L) (print_dirs cf w l) anyQ.
+  Forall (fun d => rt_ok ps G L (view d)) l -> forall v, keeps (good [] G L) (print_dirs cf w l v) anyQ.
 Proof.
-  induction 1 as [|d r Hd Hr IH]; cbn [print_dirs]; [apply keeps_ret_any|].
+  induction 1 as [|d r Hd Hr IH]; intros v; cbn [print_dirs]; [apply keeps_ret_any|].
   destruct d; try apply keeps_fail.
   destruct (lookup_directive name) as [[arglens ?]|]; [|apply keeps_fail].
   destruct (negb (check_num_args arglens (length args))); [apply keeps_fail|].
   cbn [view] in Hd. apply rt_ok_kids in Hd; [|reflexivity|discriminate]. apply Forall_map_view in Hd.
-  kb vs; [apply eval_list_ok; exact Hd|]. kb rest; [exact IH|]. apply keeps_ret_any.
+  kb vs; [apply eval_list_ok; exact Hd|]. kb s; [apply keeps_lift|]. kb ws; [apply keeps_lift|].
+  kb rest; [apply IH|]. apply keeps_ret_any.
 Qed.
 
 Lemma if_conds_ok G L cs :
@@ -381,8 +382,9 @@ Proof.
   - (* function *)
     to_any. rewrite loop_names_fn. destruct (contains loop_func_names name) eqn:Hlf.
     + apply loop_func_ok. intros p0 key acc rest ->.
-      destruct H as (Hwf & _). cbn [view Wf.wf wf_body map ref_key] in Hwf. apply andb_true_iff in Hwf as [Hlo _].
-      unfold loopfunc_ok in Hlo. rewrite Hlf in Hlo. cbn [negb orb] in Hlo. apply contains_In. exact Hlo.
+      destruct H as (Hwf & _). cbn [view Wf.wf wf_body map] in Hwf. apply andb_true_iff in Hwf as [Hlo _].
+      unfold loopfunc_ok in Hlo. rewrite Hlf in Hlo. cbn [negb orb] in Hlo. unfold loop_arg in Hlo.
+      destruct rest; [|destruct acc; discriminate Hlo]. destruct acc; [|discriminate Hlo]. apply contains_In. exact Hlo.
     + kids H. apply Forall_map_view in H. apply call_func_ok. exact H.
   - (* list literal *)
     to_any. kids H. apply Forall_map_view in H. kb vs; [apply eval_list_ok; exact H | apply keeps_fresh_list].
@@ -414,7 +416,7 @@ Proof.
     to_any. kids H. inversion H as [|? ? Harg Hdirs]; subst. apply Forall_map_view in Hdirs.
     kb v; [apply w_any; exact Harg|].
     assert (Hk : keeps (good [] G L)
-                   (ds <-- print_dirs cf w dirs ;;; s <-- lift (value_string v) ;;; st <-- get ;;;
+                   (ds <-- print_dirs cf w dirs v ;;; s <-- lift (value_string v) ;;; st <-- get ;;;
                     ws <-- lift (print_writes (mode st) ds s) ;;; _ <-- write_all ws ;;; ret VUndef) anyQ).
     { kb ds; [apply print_dirs_ok; exact Hdirs|]. kb s; [apply keeps_lift|]. kb st; [apply keeps_get|].
       kb ws; [apply keeps_lift|]. kb u; [apply keeps_write_all; apply good_closed | apply keeps_ret_any]. }
